@@ -15,17 +15,21 @@ CONFIG = dict(
                "correspondence stream); harness glue, in particular the emulation of the daemon's calling convention for purges "
                "(prefix_counter = None, transcribed from daemon/src/table_manager.rs) next to purges that hand the counter over. "
                "Interpretation: accepted = paths that passed import policy (the repository's documented Add-Path semantics), "
-               "received and limit counter = prefixes with >= 1 path of the peer. OPEN known findings: restarted session's fresh "
-               "counter vs inherited stale prefixes (mismatch, later underflow), purges without the live session's counter.",
-    lean_modules=["Rbgp.Rib.PropsC15"],
+               "received and limit counter = prefixes with >= 1 path of the peer. OPEN known finding: a restarted session's fresh "
+               "counter vs inherited stale prefixes of the same peer (mismatch, later underflow / spurious limit signal).",
+    lean_modules=["Rbgp.Rib.PropsC15", "Rbgp.Rib.PropsCodec"],
     theorems=[
+        "Rbgp.Rib.PropsCodec.c15_check_run_ok_partial_of_codec",
         "Rbgp.Rib.PropsC15.check_run_ok_partial",
         "Rbgp.Rib.PropsC15.not_C15_full",
         "Rbgp.Rib.PropsC15.stats_eq_recount",
         "Rbgp.Rib.PropsC15.state_eq_recount",
+        "Rbgp.Rib.PropsC15.no_panic",
         "Rbgp.Rib.PropsC15.no_underflow",
+        "Rbgp.Rib.PropsC15.limit_counter_ge_recount_partial",
         "Rbgp.Rib.PropsC15.limit_counter_eq_recount_partial",
         "Rbgp.Rib.PropsC15.limit_enforced_partial",
+        "Rbgp.Rib.PropsC15.limit_signalled",
     ],
     harness=dict(kind="pt", bin="c15"),
     profiles=["debug", "release"], profile_in_case=True,
@@ -45,9 +49,12 @@ CONFIG = dict(
     modelled_not_verified=["hash-map iteration order", "u64 overflow of `+= 1` on the statistics (needs 2^64 operations)",
                            "AtomicU64 memory ordering (single-threaded harness)"],
     assumptions=["well-formed case (Case.WF): one family per Source, sources referred to by position",
-                 "the limit counter of a session is judged from its first use until its peer is dropped or re-marked stale "
-                 "(the daemon drops the counter with the session)"],
-    claimed=False, na_reason="proofs in progress",
+                 "the limit counter of a session is judged from its first use until its peer is dropped, re-marked stale, or "
+                 "purged without a counter (the daemon drops the counter with the session and only purges without a counter "
+                 "when no session of the peer is counting)",
+                 "Case.PlainLimits for the partial theorems: a limited session is the only source of its peer address, purges "
+                 "are handed no counter or that session's counter, fewer than 2^63 operations"],
+    claimed=True,
 )
 
 
